@@ -67,7 +67,9 @@ Fixpoint walk (fuel : nat) (nodes : list pnode) (id : nat) (my : N) (is_side_eff
         let is_our_group := is_group_like (n_def n) &&
              match under_group with None => false | Some g => Nat.eqb g li end in
         let completed_suffix := secondary_eqb (n_sec n) S_UnarySuffix && negb is_side_effect in
-        let stop := negb completed_suffix && (N.ltb my their || (N.eqb my their && rtl)) in
+        let closed_group := is_side_effect && negb is_our_group &&
+                            (definition_eqb (n_def n) D_Group || definition_eqb (n_def n) D_NestedExpression) in
+        let stop := negb completed_suffix && negb closed_group && (N.ltb my their || (N.eqb my their && rtl)) in
         if stop || is_our_group then Ok (Some li, true_left)
         else if opt_nat_eqb (n_right n) (Some id) then Err E_missing_operand
         else
@@ -124,11 +126,12 @@ Record pstate : Type := mkState {
   current_group : option nat;
   prev_sec : secondary;
   prev_sig : secondary;      (* previous_significant_def *)
-  separated : bool
+  separated : bool;
+  se_prev : list secondary   (* side_effect_previous_defs, head = innermost *)
 }.
 
 Definition init_state : pstate :=
-  mkState [] None None false None None [] None S_None S_None false.
+  mkState [] None None false None None [] None S_None S_None false [].
 
 (* result of the per-token match: (definition, parent, left, right) *)
 Definition info : Type := (definition * option nat * option nat * option nat)%type.
@@ -158,7 +161,7 @@ Definition space_list_check (st : pstate) (under_group : option nat) : res bool 
 
 Definition with_nodes (st : pstate) (ns : list pnode) : pstate :=
   mkState ns (next_parent st) (last_left st) (check_for_list st) (last_token st)
-          (next_last_left st) (group_stack st) (current_group st) (prev_sec st) (prev_sig st) (separated st).
+          (next_last_left st) (group_stack st) (current_group st) (prev_sec st) (prev_sig st) (separated st) (se_prev st).
 
 (* check_separated_composition *)
 Definition ends_value (s : secondary) : bool :=
@@ -206,25 +209,29 @@ Definition step (ntoks : nat) (i : nat) (tok : token_type) (st0 : pstate) : res 
                    && negb (opt_nat_eqb (last_left st0) under_group)
                    && match n_parent n with Some _ => true | None => false end
                 then
-                  let ps := match n_parent n with
-                            | Some p => match nth_error (nodes st0) p with
-                                        | Some pn => (n_sec pn, n_sec pn)
-                                        | None => (prev_sec st0, prev_sig st0) end
-                            | None => (prev_sec st0, prev_sig st0) end in
-                  Ok (n_parent n, fst ps, snd ps)
+                  Ok (n_parent n, prev_sec st0, prev_sig st0)
                 else Ok (last_left st0, prev_sec st0, prev_sig st0)
               end
             end;
   let '(ll, psec, psig) := adj in
   let st := mkState (nodes st0) (next_parent st0) ll (check_for_list st0) (last_token st0)
-                    (next_last_left st0) (group_stack st0) (current_group st0) psec psig (separated st0) in
+                    (next_last_left st0) (group_stack st0) (current_group st0) psec psig (separated st0) (se_prev st0) in
   let assumed_right := if Nat.leb ntoks (i + 1) then None else Some (current_id + 1) in
   let '(definition, sec) := get_definition tok in
   if forbidden (prev_sec st) sec (check_for_list st) then Err E_composition else
   let trivia := match sec with S_Whitespace | S_Annotation => true | _ => false end in
   if negb trivia && separated st && forbidden_separated (prev_sig st) sec (check_for_list st) then Err E_composition else
-  let new_sig := if trivia then prev_sig st else sec in
-  let new_sep := trivia in
+  let '(new_sig, new_sep, new_se) :=
+    if trivia then (prev_sig st, true, se_prev st)
+    else match sec with
+         | S_StartSideEffect => (sec, false, prev_sig st :: se_prev st)
+         | S_EndSideEffect => match se_prev st with
+                              | p :: r => (p, true, r)
+                              | [] => (S_None, true, [])
+                              end
+         | _ => (sec, false, se_prev st)
+         end in
+  let new_prev := match sec with S_EndSideEffect => new_sig | _ => sec end in
   (* result: (state with updated fields except the final push/last_left, info) *)
   do r <-
     match sec with
@@ -232,10 +239,10 @@ Definition step (ntoks : nat) (i : nat) (tok : token_type) (st0 : pstate) : res 
     | S_Whitespace =>
         do cfl <- space_list_check st under_group;
         Ok (mkState (nodes st) (next_parent st) (last_left st) cfl (last_token st)
-                    (last_left st) (group_stack st) (current_group st) sec new_sig new_sep, drop_info)
+                    (last_left st) (group_stack st) (current_group st) new_prev new_sig new_sep new_se, drop_info)
     | S_Annotation =>
         Ok (mkState (nodes st) (next_parent st) (last_left st) (check_for_list st) (last_token st)
-                    (last_left st) (group_stack st) (current_group st) sec new_sig new_sep, (definition, None, None, None))
+                    (last_left st) (group_stack st) (current_group st) new_prev new_sig new_sep new_se, (definition, None, None, None))
     | S_Identifier | S_Value =>
         if check_for_list st then
           let our_id := current_id + 1 in
@@ -244,38 +251,38 @@ Definition step (ntoks : nat) (i : nat) (tok : token_type) (st0 : pstate) : res 
           do r2 <- parse_token our_id definition (Some current_id) ns under_group false;
           let '(ns2, parent, tl) := r2 in
           Ok (mkState ns2 (next_parent st) (last_left st) false (last_token st)
-                      nll (group_stack st) (current_group st) sec new_sig new_sep, (definition, parent, tl, None))
+                      nll (group_stack st) (current_group st) new_prev new_sig new_sep new_se, (definition, parent, tl, None))
         else
           do r2 <- parse_token current_id definition (last_left st) (nodes st) under_group false;
           let '(ns2, parent, tl) := r2 in
           Ok (mkState ns2 (next_parent st) (last_left st) false (last_token st)
-                      (next_last_left st) (group_stack st) (current_group st) sec new_sig new_sep, (definition, parent, tl, None))
+                      (next_last_left st) (group_stack st) (current_group st) new_prev new_sig new_sep new_se, (definition, parent, tl, None))
     | S_BinaryRightToLeft =>
         do r2 <- parse_token current_id definition (last_left st) (nodes st) under_group true;
         let '(ns2, parent, tl) := r2 in
         Ok (mkState ns2 (Some current_id) (last_left st) false (last_token st)
-                    (next_last_left st) (group_stack st) (current_group st) sec new_sig new_sep, (definition, parent, tl, assumed_right))
+                    (next_last_left st) (group_stack st) (current_group st) new_prev new_sig new_sep new_se, (definition, parent, tl, assumed_right))
     | S_BinaryLeftToRight | S_OptionalBinaryLeftToRight =>
         do r2 <- parse_token current_id definition (last_left st) (nodes st) under_group false;
         let '(ns2, parent, tl) := r2 in
         Ok (mkState ns2 (Some current_id) (last_left st) false (last_token st)
-                    (next_last_left st) (group_stack st) (current_group st) sec new_sig new_sep, (definition, parent, tl, assumed_right))
+                    (next_last_left st) (group_stack st) (current_group st) new_prev new_sig new_sep new_se, (definition, parent, tl, assumed_right))
     | S_UnaryPrefix =>
         if check_for_list st then
           let our_id := current_id + 1 in
           do ns <- make_list_node current_id our_id st under_group;
           Ok (mkState ns (Some our_id) (last_left st) false (last_token st)
-                      (Some (length ns)) (group_stack st) (current_group st) sec new_sig new_sep,
+                      (Some (length ns)) (group_stack st) (current_group st) new_prev new_sig new_sep new_se,
               (definition, Some current_id, None, Some (our_id + 1)))
         else
           Ok (mkState (nodes st) (Some current_id) (last_left st) (check_for_list st) (last_token st)
-                      (next_last_left st) (group_stack st) (current_group st) sec new_sig new_sep,
+                      (next_last_left st) (group_stack st) (current_group st) new_prev new_sig new_sep new_se,
               (definition, next_parent st, None, assumed_right))
     | S_UnarySuffix =>
         do r2 <- parse_token current_id definition (last_left st) (nodes st) under_group false;
         let '(ns2, parent, tl) := r2 in
         Ok (mkState ns2 (Some current_id) (last_left st) false (last_token st)
-                    (next_last_left st) (group_stack st) (current_group st) sec new_sig new_sep, (definition, parent, tl, None))
+                    (next_last_left st) (group_stack st) (current_group st) new_prev new_sig new_sep new_se, (definition, parent, tl, None))
     | S_StartGrouping =>
         let cg := Some (length (group_stack st)) in
         if check_for_list st then
@@ -283,18 +290,18 @@ Definition step (ntoks : nat) (i : nat) (tok : token_type) (st0 : pstate) : res 
           do ns <- make_list_node current_id our_id st under_group;
           (* check_for_list is false after parse_token *)
           Ok (mkState ns (Some our_id) (last_left st) false (last_token st)
-                      (Some our_id) (group_stack st ++ [(our_id, false)]) cg sec new_sig new_sep,
+                      (Some our_id) (group_stack st ++ [(our_id, false)]) cg new_prev new_sig new_sep new_se,
               (definition, Some current_id, None, Some (our_id + 1)))
         else
           Ok (mkState (nodes st) (Some current_id) (last_left st) (check_for_list st) (last_token st)
-                      (next_last_left st) (group_stack st ++ [(current_id, check_for_list st)]) cg sec new_sig new_sep,
+                      (next_last_left st) (group_stack st ++ [(current_id, check_for_list st)]) cg new_prev new_sig new_sep new_se,
               (definition, next_parent st, None, assumed_right))
     | S_StartSideEffect =>
         let group_info := (current_id, check_for_list st) in
         do r2 <- parse_token current_id definition (last_left st) (nodes st) under_group false;
         let '(ns2, parent, tl) := r2 in
         Ok (mkState ns2 (Some current_id) (last_left st) false (last_token st)
-                    (next_last_left st) (group_stack st ++ [group_info]) (Some (length (group_stack st))) sec new_sig new_sep,
+                    (next_last_left st) (group_stack st ++ [group_info]) (Some (length (group_stack st))) new_prev new_sig new_sep new_se,
             (definition, parent, tl, assumed_right))
     | S_EndGrouping | S_EndSideEffect =>
         match removelast_pair (group_stack st) with
@@ -348,7 +355,7 @@ Definition step (ntoks : nat) (i : nat) (tok : token_type) (st0 : pstate) : res 
                   end
                 end;
               Ok (mkState ns (next_parent st) (last_left st) need_list_check (last_token st)
-                          (Some gleft) gs' cg sec new_sig new_sep, drop_info)
+                          (Some gleft) gs' cg new_prev new_sig new_sep new_se, drop_info)
             end
           end
         end
@@ -369,7 +376,7 @@ Definition step (ntoks : nat) (i : nat) (tok : token_type) (st0 : pstate) : res 
         if definition_eqb in_group D_Group then
           do cfl <- space_list_check st under_group;
           Ok (mkState (nodes st) (next_parent st) (last_left st) cfl (last_token st)
-                      (last_left st) (group_stack st) (current_group st) sec new_sig new_sep, drop_info)
+                      (last_left st) (group_stack st) (current_group st) new_prev new_sig new_sep new_se, drop_info)
         else
           do dr <- match last_left st with
                    | None => Ok (nodes st, false)
@@ -390,12 +397,12 @@ Definition step (ntoks : nat) (i : nat) (tok : token_type) (st0 : pstate) : res 
           let '(ns1, drop) := dr in
           if drop then
             Ok (mkState ns1 (next_parent st) (last_left st) (check_for_list st) (last_token st)
-                        (last_left st) (group_stack st) (current_group st) sec new_sig new_sep, drop_info)
+                        (last_left st) (group_stack st) (current_group st) new_prev new_sig new_sep new_se, drop_info)
           else
             do r2 <- parse_token current_id definition (last_left st) ns1 under_group false;
             let '(ns2, parent, tl) := r2 in
             Ok (mkState ns2 (Some current_id) (last_left st) false (last_token st)
-                        (next_last_left st) (group_stack st) (current_group st) sec new_sig new_sep,
+                        (next_last_left st) (group_stack st) (current_group st) new_prev new_sig new_sep new_se,
                 (definition, parent, tl, assumed_right))
     end;
   let '(st1, inf) := r in
@@ -419,7 +426,7 @@ Definition step (ntoks : nat) (i : nat) (tok : token_type) (st0 : pstate) : res 
     | None => match ns with [] => None | _ => Some current_id end
     end in
   Ok (mkState ns (next_parent st1) new_last_left (check_for_list st1) (Some i)
-              None (group_stack st1) (current_group st1) (prev_sec st1) (prev_sig st1) (separated st1)).
+              None (group_stack st1) (current_group st1) (prev_sec st1) (prev_sig st1) (separated st1) (se_prev st1)).
 
 Fixpoint run_steps (ntoks : nat) (i : nat) (toks : list token_type) (st : pstate) : res pstate :=
   match toks with
